@@ -24,6 +24,10 @@ def _configs(tier):
     out.append(("Maize|method=0|iwc=FC|water-table", dict(crop="Maize", method=0, iwc="FC", bunds=False, gw=1.5)))
     if tier != "quick":
         out.append(("Wheat|method=1|iwc=FC", dict(crop="Wheat", method=1, iwc="FC", bunds=False)))
+        for c in ("Potato", "Tomato", "Cotton", "Sorghum"):
+            for method in (0, 2, 4):
+                out.append((f"{c}|method={method}|iwc=WP", dict(crop=c, method=method, iwc="WP", bunds=False)))
+        out.append(("Maize|method=1|bunds|water-table", dict(crop="Maize", method=1, iwc="FC", bunds=True, gw=1.2)))
     return out
 
 
